@@ -128,7 +128,7 @@ Proof.
   assert (Hm : matcher_hyps_okb (i_rule inp) (i_host inp) (i_calls inp) = true).
   { rewrite Ei. unfold matcher_hyps_okb. rewrite Hwh, R1, R2, R3, Hcalls. reflexivity. }
   pose proof (its_list_sound_matcher inp rc l r gs Ei Hm Hits g Ig) as Hi. split; [exact Hi|].
-  destruct Hi as (hb & m & T & tbl & _ & _ & _ & _ & _ & _ & _ & _ & A4 & _).
+  destruct Hi as (hb & m & T & tbl & _ & _ & _ & _ & _ & _ & _ & _ & _ & A4 & _).
   assert (Hnd : nodupb (node_ids tpl) = true /\ simple_edgesb (gedges tpl) = true).
   { unfold wf_rcb in Hw. apply andb_prop in Hw. destruct Hw as [Hw _]. apply andb_prop in Hw. exact Hw. }
   exact (A4 (default_rule_balanced tpl rc l r (proj1 Hnd) Hel (proj2 Hnd) Es Hcond)).
